@@ -1,5 +1,6 @@
 import MtblProofs.TpProofs
 import MtblProofs.AccessProofs
+import MtblProofs.OwnerProofs
 /-
   C14 — No data races in the concurrent uses the API allows (pool part).
   A race state = two different threads each have an enabled step, the two steps touch a common location, at least one
@@ -10,9 +11,11 @@ import MtblProofs.AccessProofs
   (Mtbl.Generated.accessSites): `C14_sites_declared` and `C14_declared_in_model` below re-check it.
 
   PARTIAL (DESIGN.md §8 C14): the machine has one caller and one result handler; several callers sharing one pool
-  (`pool->m`, `pool->c` with several waiters) and the writer/sorter field partition are exercised only at run time under
-  ThreadSanitizer (correspondence family `mt`); reader immutability is a regenerated table theorem
-  (`C14_reader_immutable`) plus the same run-time check; the C11 memory model is not formalised.
+  (`pool->m`, `pool->c` with several waiters) are exercised only at run time under ThreadSanitizer (correspondence family
+  `mt`); the writer/sorter field partition (`C14_writer_*`, `C14_sorter_*`), reader immutability
+  (`C14_reader_immutable`) and the single writer of the CRC function pointer (`C14_crc_pointer`) are table theorems over
+  tables regenerated from the C source on every run, plus the same run-time check; the C11 memory model is not
+  formalised.
 -/
 namespace Tp.C14
 variable {max njobs : Nat} {ordered : Bool} {s : St}
@@ -40,6 +43,39 @@ theorem C14_queue_fields_locked : declared.all (fun d =>
     to a reader_iter or block_iter (table regenerated from the source on every run) -/
 theorem C14_reader_immutable : Mtbl.Generated.readerWrites.all (fun s =>
     s.obj == "reader_iter" || s.obj == "block_iter" || readerCtors.contains s.fn) = true := reader_immutable
+
+/-! ### pooled writer and sorter: the caller and the result-handler thread touch disjoint fields until the join
+  (tables `Mtbl.Generated.writerSites` / `sorterSites`, regenerated from mtbl/writer.c and mtbl/sorter.c; roles and
+  predicates in MtblProofs/OwnerProofs.lean) -/
+open Mtbl.Owner Mtbl.Generated in
+theorem C14_writer_partition :
+    classified writerRoles writerSites = true ∧ partitioned writerRoles writerSites = true ∧
+    immutableOk writerRoles writerSites = true :=
+  ⟨writer_classified, writer_partitioned, writer_immutable⟩
+open Mtbl.Owner Mtbl.Generated in
+theorem C14_writer_join_first :
+    afterMarker writerRoles writerSites "_mtbl_writer_finish" "<join>" = true ∧
+    afterMarker writerRoles writerSites "mtbl_writer_destroy" "<call:_mtbl_writer_finish>" = true :=
+  ⟨writer_finish_joins_first, writer_destroy_finishes_first⟩
+open Mtbl.Owner Mtbl.Generated in
+theorem C14_sorter_partition :
+    classified sorterRoles sorterSites = true ∧ partitioned sorterRoles sorterSites = true ∧
+    immutableOk sorterRoles sorterSites = true :=
+  ⟨sorter_classified, sorter_partitioned, sorter_immutable⟩
+open Mtbl.Owner Mtbl.Generated in
+theorem C14_sorter_join_first :
+    afterMarker sorterRoles sorterSites "mtbl_sorter_iter" "<join>" = true ∧
+    afterMarker sorterRoles sorterSites "mtbl_sorter_destroy" "<join>" = true :=
+  ⟨sorter_iter_joins_first, sorter_destroy_joins_first⟩
+/-- the CRC implementation pointer has a single writer (the detection function, a constructor) and two possible values -/
+theorem C14_crc_pointer :
+    Mtbl.Generated.crcDetectionIsConstructor = true ∧
+    Mtbl.Generated.crcPointerWrites.all (fun w => (w.2.1 == "<init>" && w.2.2 == "my_crc32c_first") ||
+      (w.1 == "libmy/crc32c.c" && w.2.1 == "my_crc32c_runtime_detection" &&
+        (w.2.2 == "my_crc32c_sse42" || w.2.2 == "my_crc32c_slicing"))) = true := Mtbl.Owner.crc_pointer_single_writer
+example : (Mtbl.Owner.handlerFields Mtbl.Owner.writerRoles Mtbl.Generated.writerSites).contains "pending_offset" = true ∧
+    (Mtbl.Owner.handlerFields Mtbl.Owner.sorterRoles Mtbl.Generated.sorterSites).contains "readers" = true :=
+  Mtbl.Owner.handler_fields_nonempty
 
 /-- non-vacuity: the race predicate does fire on a machine state outside the reachable set (the caller assigning a job
     to a thread whose worker is in its unlocked section) -/
